@@ -9,15 +9,20 @@ MANIFEST = {
     "technique": "Coq proof over a hand-written Gallina transcription of avc/annexb.go, avc/nalus.go, avc/avc.go, "
                  "hevc/annexb.go, hevc/hevc.go + differential correspondence (extracted OCaml vs Go, hook-exported "
                  "scanner) + failing-input search with oracles written over the generating NAL unit list",
-    "level_text": "Theorems (coq/c14/C14Theorems.v), all unbounded: the hasZeroByte word trick equals 'some byte of the "
-                  "word is zero' for every 8-byte word in either byte order (byte-wise borrow-chain induction); the "
-                  "word-at-a-time start-code scanner (word loop with odd-offset probing + tail loop) returns exactly the "
-                  "byte-by-byte scan (positions, lengths, minimum length) for EVERY byte string, without panic; for every "
-                  "list of well-formed units with any 3/4-byte start-code mix the conversion to a sample is the "
-                  "length-prefixed unit list, the conversion back is the units behind 4-byte start codes, and the round "
-                  "trip holds; the sample/stream helpers listed in the theorem file return the obvious functions of the "
-                  "unit list. See the file for the exact list; helpers not listed there are covered by the correspondence "
-                  "and the search only.",
+    "level_text": "Theorems (coq/c14/C14Theorems.v), all unbounded and closed under the global context: "
+                  "C14_has_zero_byte (the hasZeroByte word trick = 'some byte of the word is zero' for every 8-byte word, "
+                  "little- and big-endian load, by a byte-wise borrow-chain induction); C14_scanner_eq_naive (the "
+                  "word-at-a-time scanner -- word loop, odd-offset probing, tail loop -- returns exactly the byte-by-byte "
+                  "scan: positions, 3/4 lengths, minimum length, for EVERY byte string, no panic, no out-of-slice load); "
+                  "C14_naive_scan_structural; C14_scan_stream, C14_to_sample (in-place and copying branch), C14_to_stream, "
+                  "C14_roundtrip for every list of well-formed units with any 3/4-byte start-code mix; "
+                  "C14_helpers_avc_sample / C14_helpers_hevc_sample (GetNalusFromSample, FindNaluTypes, "
+                  "FindNaluTypesUpToFirstVideoNALU, ContainsNaluType, IsIDRSample, IsRAPSample, HasParameterSets, "
+                  "GetParameterSets = the obvious list functions of the unit list); C14_byte_stream_loop_events and "
+                  "C14_helpers_stream (ExtractNalusFromByteStream, GetFirstAVCVideoNALUFromByteStream, "
+                  "GetParameterSetsFromByteStream and ExtractNalusOfTypeFromByteStream for AVC and HEVC, on the text after "
+                  "the two fix commits). The model is tied to /repo on every run by running it (extracted) against the "
+                  "real functions.",
     "level_note": "Trusted: Coq kernel, extraction (ExtrOcamlBasic), OCaml/Go glue, and the correspondence being only as "
                   "good as its generated inputs (every {00,01,xx} pattern at every offset of word-crossing backgrounds, "
                   "unit-list streams, mutated streams). The 8-byte load through unsafe.Pointer is modelled as the "
